@@ -263,6 +263,18 @@ func (ctx *Context) makeDetailStr(details []BufferSpan) string {
 	}
 	detailResult := ctx.parser.data[:offset]
 
+	// 骰点片段的结尾可能带着被右括号等记号吞掉的空白(如 "2d(6) + 1" 中的 "2d(6) ")。
+	// 分组仍按原始范围进行，但写出文本时空白留在标注之外；范围也不能越过文本末尾
+	textEnd := func(begin, end IntType) IntType {
+		if int(end) > len(detailResult) {
+			end = IntType(len(detailResult))
+		}
+		for end > begin && end > 0 && strings.ContainsRune(" \t\r\n", rune(detailResult[end-1])) {
+			end--
+		}
+		return end
+	}
+
 	curPoint := IntType(-1) // nolint
 	lastEnd := IntType(-1)  // nolint
 
@@ -313,7 +325,7 @@ func (ctx *Context) makeDetailStr(details []BufferSpan) string {
 			var subDetailParts []string
 			for j := 0; j < len(item.spans)-1; j++ {
 				span := item.spans[j]
-				subDetail := string(detailResult[span.Begin:span.End]) + "=" + span.Ret.ToString()
+				subDetail := string(detailResult[span.Begin:textEnd(span.Begin, span.End)]) + "=" + span.Ret.ToString()
 				if ctx.Config.CustomDetailSpanRewriteFunc != nil {
 					subDetail = ctx.Config.CustomDetailSpanRewriteFunc(ctx, subDetail, span, false, ctx.parser.data, offset)
 				}
@@ -327,7 +339,8 @@ func (ctx *Context) makeDetailStr(details []BufferSpan) string {
 		}
 
 		exprText := last.Expr
-		baseExprText := string(detailResult[item.begin:item.end])
+		itemEnd := textEnd(item.begin, item.end)
+		baseExprText := string(detailResult[item.begin:itemEnd])
 		if last.Expr == "" {
 			exprText = baseExprText
 		}
@@ -387,7 +400,7 @@ func (ctx *Context) makeDetailStr(details []BufferSpan) string {
 		}
 
 		writeBufStr(partRet + detail)
-		writeBuf(detailResult[item.end:])
+		writeBuf(detailResult[itemEnd:])
 		detailResult = buf.Bytes()
 	}
 
